@@ -484,7 +484,7 @@ impl<V> VerifRetainKeys<V> for BTreeMap<SliceIndex, V> {
 }
 // R8: `self.shreds.keys().any(|&ind| pred(ind))`: true iff some key satisfies the closure
 #[verifier::external_body]
-pub fn verif_any_key<F: Fn(SliceIndex) -> bool>(m: &BTreeMap<SliceIndex, [Option<ValidatedShred>; TOTAL_SHREDS]>, f: F) -> (r: bool)
+pub fn verif_any_key<V, F: Fn(SliceIndex) -> bool>(m: &BTreeMap<SliceIndex, V>, f: F) -> (r: bool)
     requires forall|k: SliceIndex| #[trigger] f.requires((k,))
     ensures
         r ==> exists|k: SliceIndex| m@.contains_key(k) && f.ensures((k,), true),
@@ -818,7 +818,7 @@ rewrite[R5] `Entry::Occupied(entry) if entry.get().0 != shred.commitment() => {`
 rewrite[R5] `Entry::Occupied(entry) => {` => `Some(entry) => {`
 rewrite[R5] `shred.set_slice_sig(entry.get().1);` => `shred.set_slice_sig(entry.1);`
 rewrite[R5] `Entry::Vacant(entry) => { entry.insert((shred.commitment(), shred.slice_sig())); }` => `None => { self.commitment_cache.insert(slice_index, (shred.commitment(), shred.slice_sig())); }`
-rewrite[R8] `self.shreds.keys().any(|&ind|` => `verif_any_key(&self.shreds, |ind: SliceIndex|`
+rewrite[R8] `self.VID.keys().any(|&ind|` => `verif_any_key(&self.VID, |ind: SliceIndex|`
 rewrite[R8] `self.shreds.is_empty()` => `verif_shreds_is_empty(&self.shreds)`
 rewrite[R5] `self .shreds .entry(slice_index) .or_insert([const { None }; TOTAL_SHREDS])` => `verif_shreds_entry(&mut self.shreds, slice_index)`
 rewrite[R8] `slice_shreds[*shred_index].is_some()` => `verif_row_is_some(slice_shreds, shred_index.inner())`
